@@ -274,3 +274,39 @@ Proof.
     split; apply centre_negc; auto; apply negc_offset; auto; lia.
 Qed.
 
+(* ---------------------------------------------------------------- sub-pixel: what IS proved *)
+(* With upsampling the NumPy estimator returns (centred) the position of the largest window
+   sample, x0 + (lx - du)/up, plus a parabolic correction of at most half an upsampled pixel.
+   What is NOT proved (validated on the implementation only): that the largest sample of the
+   band-limited interpolant is the one nearest to the true sub-pixel shift (needs unimodality of
+   the interpolant on the window and that the window, +-1.5 pixels around the stage-1 estimate,
+   contains the true peak). *)
+Theorem np_subpixel_partial M N up cc ups p q :
+  2 <= M -> 2 <= N -> 2 <= up -> uniq_max M N cc p q ->
+  (forall x y, exists lx ly, uniq_max (np_win up) (np_win up) (ups x y) lx ly) ->
+  exists x0 y0 lx ly dx dy,
+    np_stage1 M N None cc = Some ((p, q), (x0, y0)) /\
+    uniq_max (np_win up) (np_win up) (ups x0 y0) lx ly /\
+    np_shift M N None up cc ups
+    = Some (centre M (np_coord up x0 lx + dx / qN up), centre N (np_coord up y0 ly + dy / qN up)) /\
+    (- (1 # 2) <= dx /\ dx <= 1 # 2)%Q /\ (- (1 # 2) <= dy /\ dy <= 1 # 2)%Q.
+Proof.
+  intros HM HN Hup Hu Hw.
+  destruct (np_stage1_val HM HN Hu) as (d0x & d0y & _ & _ & S1).
+  set (x0 := qmod (qN p + d0x) M) in *. set (y0 := qmod (qN q + d0y) N) in *.
+  destruct (Hw x0 y0) as (lx & ly & Hul).
+  destruct (win_refine_val Hul) as (dx & dy & R1 & Ed & Ne).
+  exists x0, y0, lx, ly, dx, dy. split; [exact S1|]. split; [exact Hul|].
+  split.
+  - unfold np_shift. rewrite S1. destruct (Nat.leb_spec up 1) as [C|_]; [lia|]. rewrite R1. reflexivity.
+  - destruct ((lx =? 0) || (np_win up <=? lx + 1) || (ly =? 0) || (np_win up <=? ly + 1))%bool eqn:E.
+    + destruct (Ed eq_refl) as [-> ->]. split; split; lra.
+    + destruct (Ne eq_refl) as [Px Py]. destruct Hul as (Hx & Hy & H).
+      rewrite !orb_false_iff in E. destruct E as [[[E1 E2] E3] E4].
+      apply Nat.eqb_neq in E1, E3. apply Nat.leb_gt in E2, E4.
+      split.
+      * apply (@parab_within_half _ _ _ dx) in Px; [exact Px | |];
+          apply Qlt_le_weak; apply H; try lia; intros C; inversion C; lia.
+      * apply (@parab_within_half _ _ _ dy) in Py; [exact Py | |];
+          apply Qlt_le_weak; apply H; try lia; intros C; inversion C; lia.
+Qed.
